@@ -99,6 +99,10 @@ def cases_S(tier, seed):
     for cls_, tab_ in (("ideal", None), ("single", "T_ship_gas")):  # smoothly graded fine grid: steps differ by < 0.1 %
         out.append({"part": "S", "cls": cls_, "table": tab_, "p_f": 1000.0, "p_i": 8000.0, "nx": 8, "grid": "quadratic",
                     "n": 1500, "T": 3.0, "sched": "scalar", "seed": seed})
+    for cls_, tab_, sc_ in (("ideal", None, "scalar"), ("single", "T_ship_gas", "scalar"), ("single", "T_ship_gas", "downup"),
+                            ("single", "A_fall", "stepdown")):  # long hold: the profile stops moving long before the run ends
+        out.append({"part": "S", "cls": cls_, "table": tab_, "p_f": 4000.0, "p_i": 8000.0, "nx": 8, "grid": "uniform",
+                    "n": 400, "T": 60.0, "sched": sc_, "seed": seed})
     for nx, (g, n, T) in itertools.product(nxs, GRIDS):
         out.append({"part": "S", "cls": "ideal", "table": None, "p_f": 1000.0, "p_i": 8000.0, "nx": nx,
                     "grid": g, "n": n, "T": T, "sched": "scalar", "seed": seed})
